@@ -122,6 +122,7 @@ def cases(tier, seed):
         out.append(('priors/%s' % dsn, ('priors', dsn, seed)))
         for name in ('LMNN', 'NCA', 'MLKR'):
             out.append(('inits/%s/%s' % (name, dsn), ('inits', name, dsn, seed)))
+    out.append(('inits/pca_on_a_wide_dataset', ('pca_wide', seed)))
     out.append(('priors/wide_spectrum', ('spectrum', seed)))
     out.append(('priors/tiny_units', ('tiny', seed)))
     for name in ('LMNN', 'NCA', 'MLKR'):
@@ -247,7 +248,7 @@ def run_case(spec):
                 viol.append(V('ITML.fit', 'covariance_prior_rejected', "prior='covariance' on well-conditioned data in %s raised %s: %s"
                               % (dsn, type(e).__name__, str(e)[:100]), ['covariance', dsn]))
         I = _util._initialize_metric_mahalanobis
-        for inp_name, inp in (('points', ds.X), ('pairs(repeated points)', ds.pairs)):
+        for inp_name, inp in (('points', ds.X), ('pairs(repeated points)', ds.pairs), ('quadruplets', ds.quads), ('triplets', ds.trip)):
             Xd = np.unique(np.vstack(inp), axis=0) if inp.ndim == 3 else inp
             # exact covariance of the DISTINCT points and its exact inverse
             Xf = [exact.fvec(r) for r in Xd]
@@ -412,6 +413,26 @@ def run_case(spec):
                     viol.append(V(name + '.fit', 'init_auto', "%d samples x %d features, n_components=%d: init='auto' differs from init=%r, which the "
                                   'documented rule selects' % (n, d, nc, rule), ['few_samples', rule]))
         return dict(evals=evals, sigs=sigs, viol=viol, sample={'learner': name, 'datasets': '6x8, 7x5, 9x9', 'rule': "auto -> lda / pca / identity"})
+    if kind == 'pca_wide':
+        # 520 samples x 60 features, 5 components: scikit-learn's PCA picks its RANDOMISED solver here; the documented
+        # behaviour is that random_state reaches it, so an integer seed pins the initial transformation down
+        rs = np.random.RandomState(20500)
+        X = np.round(rs.randn(520, 60) * np.linspace(1, 3, 60) * 16) / 16
+        y = rs.randint(3, size=520)
+        outs = {}
+        for seed_ in (0, 0, 1):
+            for init in ('pca', 'auto'):
+                np.random.seed(rs.randint(1 << 30))            # whatever the global generator holds must not matter
+                L = _util._initialize_components(5, X, y, init=init, random_state=seed_, has_classes=(init == 'pca'))
+                evals += 1
+                outs.setdefault((init, seed_), []).append(np.array(L))
+        for init in ('pca', 'auto'):
+            a, b = outs[(init, 0)]
+            sigs.add(('pca_wide', init, bool(np.array_equal(a, outs[(init, 1)][0]))))
+            if a.shape != (5, 60) or not np.array_equal(a, b):
+                viol.append(V('_initialize_components', 'init_pca_seed', "init=%r on a 520 x 60 dataset: two calls with random_state=0 give different "
+                              'initial transformations (max abs diff %.3g)' % (init, np.abs(a - b).max() if a.shape == b.shape else np.nan), [init, 'wide']))
+        return dict(evals=evals, sigs=sigs, viol=viol, sample={'case': 'pca / auto init on 520 x 60 points, 5 components, seeds 0, 0, 1'})
     if kind == 'inits':
         _, name, dsn, seed = spec
         ds = data.dataset('R', seed) if dsn == 'R' else data.dataset(dsn)
